@@ -766,6 +766,7 @@ random: 40-statement programs at both ends of the address space and elsewhere. n
 					},
 				}
 			},
+			["procfile", room] if room.parse::<u32>().is_ok() => crate::asm::check_procfile(cx, room.parse().unwrap(), &cx.work.join("procfile")),
 			["api"] | ["api", ""] => {let reply = cx.model.ask("seg api"); check_api(cx, &dirs, &[], &reply);},
 			["api", ops] =>
 			{
@@ -870,6 +871,8 @@ random: 40-statement programs at both ends of the address space and elsewhere. n
 	}
 
 	api_section(cx, &dirs);
+	// `.dfile` of a file longer than its metadata length into a region with little room below a closed region (shared with C06)
+	for room in [4u32, 12, 1000] {crate::asm::check_procfile(cx, room, &cx.work.join("procfile"));}
 
 	let depth = if cx.thorough() {6} else {5};
 	exhaustive(cx, &dirs, depth);
